@@ -184,6 +184,52 @@ C13_Viol(r) ==
     \/ r.a = "dealloc" /\ ~r.exp.x.wastop /\ r.o.stats[4] # r.o.pa
 
 (***************************************************************************)
+(* C07  allocation failure is an error and leaves the arena working        *)
+(***************************************************************************)
+ScriptedFail(r) == \E k \in 1..Len(r.o.base) : r.o.base[k][1] = "fail" /\ r.o.base[k][4] = 1
+C07_Viol(r) ==
+    IsStep(r) /\
+    \* the base allocator refused / the size computation overflows: an error, never success, never a panic of a try_ / allocator call
+    \/ ScriptedFail(r) /\ (r.o.res = "ok" \/ (r.v # "panicking" /\ r.o.res # "err"))
+    \/ r.a = "alloc_huge" /\ (r.o.res = "ok" \/ (r.v # "panicking" /\ r.o.res # "err"))
+    \* after a failure: earlier allocations intact, invariants hold, nothing leaked or released twice ...
+    \/ (r.exp.fails > 0 \/ r.a = "alloc_huge") /\ (C01_Viol(r) \/ C02_Viol(r) \/ C05_Viol(r) \/ C10_Viol(r))
+    \* ... and the arena keeps working: a later request that the model can serve is served
+    \/ r.exp.fails > 0 /\ r.exp.res = "ok" /\ r.o.res # "ok" /\ ~ScriptedFail(r)
+
+(***************************************************************************)
+(* C14  a claimed allocator is inert until the claim ends, then resumes    *)
+(***************************************************************************)
+CurPos(o) == IF o.cur = 0 THEN <<0, 0>> ELSE <<o.chunks[o.cur][1], o.chunks[o.cur][5]>>
+C14_Viol(r) ==
+    \/ r.a = "claimed_op" /\
+         \/ r.args.op \in {"alloc", "reserve", "grow"} /\ r.o.res = "ok"          \* every request for memory fails
+         \/ r.args.op \in {"alloc", "reserve", "grow"} /\ r.v # "panicking" /\ r.o.res # "err"
+         \/ r.args.op = "claim" /\ r.o.res # "panic"                              \* a second claim panics
+         \/ r.args.op \in {"dealloc", "shrink"} /\ (r.o.stats[4] # r.o.pa \/ CurPos(r.o) # r.o.pp)   \* do nothing
+         \/ r.args.op = "shrink" /\ r.o.res = "ok" /\ r.o.addr # r.o.oaddr
+         \/ r.args.op = "dealloc" /\ r.o.res # "ok"
+         \/ r.o.cstats # <<0, 0, 0, 0, 0>> \/ r.o.cany # <<0, 0, 0, 0, 0>> \/ ~r.o.cclaimed   \* stats report an empty arena
+         \/ r.o.damaged # <<>>
+    \* the guard takes over exactly where the handle was, and hands back exactly where it stopped
+    \/ r.a \in {"enter", "exit"} /\ r.args.kind = "claim" /\
+         (r.o.res # "ok" \/ r.o.stats[4] # r.o.pa \/ CurPos(r.o) # r.o.pp \/ r.o.claimed \/ r.o.damaged # <<>>)
+    \* everything allocated through the guard (and before) stays live and intact while and after the claim
+    \/ IsStep(r) /\ r.exp.inclaim /\ (r.o.damaged # <<>> \/ C01_Viol(r))
+
+(***************************************************************************)
+(* C18  changing the minimum alignment                                     *)
+(***************************************************************************)
+AlignedFrame(r) == r.a \in {"enter", "exit"} /\ r.args.kind \in {"aligned", "saligned"}
+PosAligned(o, n) == o.cur = 0 \/ o.chunks[o.cur][5] % n = 0
+C18_Viol(r) ==
+    \/ r.a = "enter" /\ AlignedFrame(r) /\ (r.o.res # "ok" \/ r.o.ma # r.args.n \/ ~PosAligned(r.o, r.args.n))
+    \/ IsStep(r) /\ r.a # "drop" /\ r.exp.inaligned /\ ~PosAligned(r.o, r.o.ma)       \* after every allocation inside
+    \/ r.a = "exit" /\ AlignedFrame(r) /\ (r.o.res # "ok" \/ ~PosAligned(r.o, r.o.ma))     \* outer alignment again
+    \/ r.a = "exit" /\ r.args.kind = "saligned" /\ C03_Viol(r)                          \* exactly the entry position
+    \/ IsStep(r) /\ (r.exp.inaligned \/ AlignedFrame(r)) /\ (r.o.damaged # <<>> \/ C01_Viol(r))
+
+(***************************************************************************)
 (* DRIFT: the observation differs from the model's exact prediction        *)
 (***************************************************************************)
 Drift(r) ==
@@ -204,6 +250,13 @@ Init == /\ done = TRUE
         /\ PrintT(<<"BAD_C10", {i \in Idx : C10_Viol(Rec[i])}>>)
         /\ PrintT(<<"BAD_C12", {i \in Idx : C12_Viol(Rec[i])}>>)
         /\ PrintT(<<"BAD_C13", {i \in Idx : C13_Viol(Rec[i])}>>)
+        /\ PrintT(<<"BAD_C07", {i \in Idx : C07_Viol(Rec[i])}>>)
+        /\ PrintT(<<"BAD_C14", {i \in Idx : C14_Viol(Rec[i])}>>)
+        /\ PrintT(<<"BAD_C18", {i \in Idx : C18_Viol(Rec[i])}>>)
+        /\ PrintT(<<"N_FAIL", Cardinality({i \in Idx : IsStep(Rec[i]) /\ (ScriptedFail(Rec[i]) \/ Rec[i].a = "alloc_huge")})>>)
+        /\ PrintT(<<"N_CLAIMED_OP", Cardinality({i \in Idx : Rec[i].a = "claimed_op"})>>)
+        /\ PrintT(<<"N_ALIGNED", Cardinality({i \in Idx : IsStep(Rec[i]) /\ Rec[i].exp.inaligned})>>)
+        /\ PrintT(<<"N_REUSE", Cardinality({i \in Idx : Rec[i].a = "alloc" /\ Has(Rec[i].args, "reuse") /\ Rec[i].args.reuse})>>)
         /\ PrintT(<<"DRIFT", {i \in Idx : Drift(Rec[i])}>>)
         /\ PrintT(<<"N_EXIT", Cardinality({i \in Idx : IsExit(Rec[i])})>>)
         /\ PrintT(<<"N_REALLOC", Cardinality({i \in Idx : AllocLike(Rec[i]) /\ Rec[i].a # "alloc" /\ Ok(Rec[i])})>>)
